@@ -129,7 +129,9 @@ struct Sigs {
         int(R, V),          // 16
         int(C, V),          // 17
         int(W),             // 18
-        int(V, I, W)        // 19
+        int(V, I, W),       // 19
+        int(V, V, V, V, V), // 20: arity 5
+        int(T, I, C, W, R)  // 21: four virtual parameters of four kinds
         >;
 };
 
@@ -705,6 +707,8 @@ struct WorldT : PolicyOps {
         nslots = NSLOTS;
         caps.hash = kHash;
         caps.checked = kChecked;
+        caps.lookup_checked = kChecked &&
+            !std::is_same_v<P, y2::policy::release_shared>;
         caps.indirect = kIndirect;
         caps.map = kMap;
         caps.deferred = kDeferred;
